@@ -87,6 +87,9 @@ def generate(program, spec, qualname, recv_cls=None, case=None):
             t = z3.Const(p, ex.z3sort(ty.sort()))
             env[p] = SV(ty.sort(), t, ty)
             st.assume(z3.simplify(ex.type_pred(ty, t, st)))
+    if c.yields:
+        env["_yielded"] = SV("int", z3.IntVal(0), T("int"))
+        c.never_returns = True          # a generator under contract is an endless stream here; nothing is claimed at exhaustion
     st.env = dict(env)
     for lab, text in c.requires:
         g = calls.spec_eval(ex, st, env, text)
